@@ -102,41 +102,13 @@ def run(chk):
     # ------------------------------------------------------------------ R2 forwarding
     r2 = chk.rule("C16.R2", "argument forwarding: each wrapper parameter reaches the same-named parameter of the delegate exactly once, unmodified, and is used for nothing else")
     n_fw = 0
-    for name, pf in sorted(pooled.methods.items()):
-        if name.startswith("_") or name in ("close", "check_key"):
-            continue
-        cf = prog.method("Client", name, required=False)
-        if cf is None:
-            r2.fail("PooledClient.%s:no-counterpart" % name, "PooledClient.%s has no counterpart on Client" % name, fn=pf, node=pf.node)
-            continue
-        # the pooled client is whatever the get_and_release bracket binds
-        cvars = {it.optional_vars.id for w in walk_no_nested(pf.node) if isinstance(w, ast.With) for it in w.items if isinstance(it.optional_vars, ast.Name) and isinstance(it.context_expr, ast.Call) and isinstance(it.context_expr.func, ast.Attribute) and it.context_expr.func.attr == "get_and_release"}
-        calls = [c for c in walk_no_nested(pf.node) if isinstance(c, ast.Call) and isinstance(c.func, ast.Attribute) and isinstance(c.func.value, ast.Name) and c.func.value.id in cvars]
-        deleg = [c for c in calls if c.func.attr == name]
-        if len(deleg) != 1 or len(calls) != 1:
-            r2.fail("PooledClient.%s:delegate-call" % name, "PooledClient.%s calls %s on the pooled client (expected exactly one call of client.%s)" % (name, [c.func.attr for c in calls], name), fn=pf, node=pf.node)
-            continue
+    from . import pooled as pooled_an
+
+    for name, runs in sorted(pooled_an.analyse(prog).items()):
+        pf = pooled.methods[name]
         n_fw += 1
-        c = deleg[0]
-        problems = _forwarding(pf, cf, c)
-        # the result is returned unmodified on the normal path (methods returning None need not return)
-        p = getattr(c, "_parent", None)
-        if not isinstance(p, ast.Return) and not (isinstance(p, ast.Expr) and _returns_none(cf)):
-            problems.append("the delegate's result is not returned as is (`%s`)" % node_src(p))
-        # parameters are used nowhere else (except as the default returned by an ignore_exc handler)
-        for n in walk_no_nested(pf.node):
-            if isinstance(n, ast.Name) and isinstance(n.ctx, ast.Load) and pf.param(n.id) is not None and n.id != "self":
-                if any(y is n for y in ast.walk(c)):
-                    continue
-                anc = _ancestor_kinds(n)
-                if ast.ExceptHandler in anc and ast.Return in anc:
-                    continue
-                problems.append("parameter `%s` is also used outside the forwarding call (`%s`): a one-shot iterable or a consumed value no longer reaches the delegate intact" % (n.id, node_src(_stmt_of(n))))
-            if isinstance(n, (ast.Assign, ast.AugAssign)) :
-                for t in ([n.target] if isinstance(n, ast.AugAssign) else n.targets):
-                    if isinstance(t, ast.Name) and pf.param(t.id) is not None:
-                        problems.append("parameter `%s` is re-assigned before forwarding" % t.id)
-        r2.expect(not problems, "PooledClient.%s forwards every parameter to client.%s" % (name, name), "PooledClient.%s:forwarding" % name, "PooledClient.%s: %s" % (name, "; ".join(problems)), fn=pf, node=c)
+        problems = pooled_an.forwarding_problems(prog, name, runs)
+        r2.expect(not problems, "PooledClient.%s forwards every parameter to client.%s" % (name, name), "PooledClient.%s:forwarding" % name, "PooledClient.%s: %s" % (name, "; ".join(problems)), fn=pf, node=pf.node)
     r2.floor("PooledClient forwarding methods", n_fw, 24)
     # HashClient: _run_cmd("<own name>", key, default, ...) and explicit params forwarded by keyword
     n_rc = 0
